@@ -336,3 +336,72 @@ def fidelity(tier, seed):
 from contracts.shared import reregister as _rr_static
 from contracts import c19 as _c19_static
 _rr_static('C04', 'C19', 'C19.no_stateful_local_statics', 'C04.lemma.no_state_between_calls', replay=None)
+
+# ---------------------------------------------------------------------------------------------------
+# the bookkeeping behind "tachyon flag <=> negative m^2": MSSMNoFV_onshell_problems::flag_tachyon keeps a SET of sector names
+# ---------------------------------------------------------------------------------------------------
+SECTORS = ['SvmL', 'Sm', 'Stau', 'Sb', 'St', 'hh', 'Ah', 'Hpm']
+PB = 'src/MSSMNoFV/MSSMNoFV_onshell_problems.cpp'
+
+FLAG_REPLAY = r'''
+#include "gm2calc/MSSMNoFV_onshell_problems.hpp"
+#include <cstdio>
+#include <string>
+#include <sstream>
+// REAL MSSMNoFV_onshell_problems: every order of flagging two or three sectors must report all of them
+int main() {
+   const char* s[] = {"SvmL", "Sm", "Stau", "Sb", "St", "hh", "Ah", "Hpm"};
+   int bad = 0;
+   for (int i = 0; i < 8; i++) for (int j = 0; j < 8; j++) for (int k = 0; k < 8; k++) {
+      gm2calc::MSSMNoFV_onshell_problems p;
+      p.flag_tachyon(s[i]); p.flag_tachyon(s[j]); p.flag_tachyon(s[k]);
+      const std::string txt = p.get_problems();
+      for (int m : {i, j, k}) if (txt.find(std::string(s[m]) + " tachyon") == std::string::npos && txt.find(s[m]) == std::string::npos) {
+         bad++; if (bad < 6) std::printf("flagged %s, %s, %s: report \"%s\" does not mention %s\n", s[i], s[j], s[k], txt.c_str(), s[m]);
+      }
+   }
+   std::printf("%d missing sector names in the problem reports\n", bad);
+   return bad ? 1 : 0;
+}
+'''
+
+def replay_flag(model, wd):
+    from gm2v import native
+    import subprocess
+    exe = native.build_against_library(wd, FLAG_REPLAY, name='flag_tachyon')
+    r = subprocess.run([exe], capture_output=True, text=True, timeout=120)
+    return r.returncode == 1, r.stdout.strip()[-1200:]
+
+def make_flag_contract(prop, cls='MSSMNoFV_onshell_problems', file=PB, sectors=None, tag='flag_tachyon', replay=replay_flag):
+    SECTORS_ = list(sectors or SECTORS)
+    @obligation('%s.problems.%s' % (prop, tag), fns=[(file, cls + '::flag_tachyon'), (file, cls + '::have_tachyon')], replay=replay)
+    def _(ctx, SECTORS=SECTORS_, cls=cls):
+        """ensures (exhaustive over all sets S of the monitored sectors and every sector name n): after flag_tachyon(n) on a problems object whose list holds exactly S,
+        the list holds exactly S + {n} (nothing lost, nothing doubled), have_tachyon() and have_problem() are true; clear() empties it"""
+        import itertools
+        bad = []
+        n_runs = 0
+        for r in range(0, 9):
+            for S in itertools.combinations(sorted(SECTORS), r):
+                for n in SECTORS:
+                    it = Interp(ctx.w, mode='sym')
+                    p = it.new_object(cls)
+                    p.f['tachyons'] = list(S)
+                    it.run_single(lambda: it.call_method(p, 'flag_tachyon', [n]))
+                    n_runs += 1
+                    got = list(p.f['tachyons'])
+                    ht = it.run_single(lambda: it.call_method(p, 'have_tachyon', []))
+                    hp = it.run_single(lambda: it.call_method(p, 'have_problem', []))
+                    if sorted(got) != sorted(set(S) | {n}) or len(got) != len(set(got)) or ht is not True or hp is not True:
+                        bad.append('list %s, flag_tachyon(%s) -> %s (have_tachyon %s)' % (list(S), n, got, ht))
+                ctx.merge_rules(it) if r == 0 else None
+        ctx.record('set_semantics', PROVED if not bad else FAILED, 'B', 0, '%d executions; %s' % (n_runs, bad[0] if bad else 'every previous name kept, the new one added once'),
+                   solver='exhaustive concrete execution of the extracted code')
+        it = Interp(ctx.w, mode='sym')
+        p = it.new_object(cls)
+        p.f['tachyons'] = ['Ah', 'hh']
+        it.run_single(lambda: it.call_method(p, 'clear', []))
+        ok = list(p.f['tachyons']) == [] and it.run_single(lambda: it.call_method(p, 'have_tachyon', [])) is False
+        ctx.record('clear', PROVED if ok else FAILED, 'B', 0, 'clear() leaves %s' % (p.f['tachyons'],))
+
+make_flag_contract('C04')
